@@ -159,7 +159,9 @@ pub fn verif_seed() -> u64 {
 }
 
 fn replay_dir() -> PathBuf {
-	PathBuf::from("/verif/replay")
+	// VERIF_REPLAY_DIR: for exploratory runs that go on while other runs of the same check
+	// (which clear that check's stale replay files) use the default directory
+	PathBuf::from(std::env::var("VERIF_REPLAY_DIR").unwrap_or_else(|_| "/verif/replay".to_string()))
 }
 
 /// Generic plan shrinker: delta-debugging over steps and windows while the same
